@@ -22,7 +22,8 @@ def borValOf (k : String) (v : BorrowInfo) : Res Rat := do
   let p ← env.priceOf k
   pure (cx.mul (cx.mul v.base st.varIdx) p)
 
-/-- the `for k, v in d.items(): cache.set(k, f(k, v))` loop; an exception leaves the entries set so far -/
+/-- `values = {k: f(k, v) for k, v in d.items()}` followed by `cache.set(k, x)` for every pair: the first
+    component tells whether (and how) the computation raised — the caller then stores nothing -/
 def fillLoop {ν μ : Type} (f : String → ν → Res μ) : List (String × ν) → Cache μ → Option Err × Cache μ
   | [], c => (none, c)
   | (k, v) :: rest, c =>
@@ -36,7 +37,7 @@ def fillLoop {ν μ : Type} (f : String → ν → Res μ) : List (String × ν)
 def suppliesValue : M (AList String Rat) := fun s =>
   if s.supAmtC.empty then
     match fillLoop (supValOf cx env) s.supplies s.supAmtC with
-    | (some e, c) => (.error e, { s with supAmtC := c })
+    | (some e, _) => (.error e, s)        -- nothing is stored unless every entry could be computed
     | (none, c) => (.ok c.val, { s with supAmtC := c })
   else (.ok s.supAmtC.val, s)
 
@@ -44,7 +45,7 @@ def suppliesValue : M (AList String Rat) := fun s =>
 def borrowsValue : M (AList String Rat) := fun s =>
   if s.borAmtC.empty then
     match fillLoop (borValOf cx env) s.borrows s.borAmtC with
-    | (some e, c) => (.error e, { s with borAmtC := c })
+    | (some e, _) => (.error e, s)
     | (none, c) => (.ok c.val, { s with borAmtC := c })
   else (.ok s.borAmtC.val, s)
 
@@ -62,7 +63,7 @@ def collateralValue : M (AList String Rat) := fun s =>
       | (.error e, s1) => (.error e, s1)
       | (.ok vs, s1) =>
         match fillLoop (fun k (_ : SupplyInfo) => optRes (AList.get? vs k) .keyCache) cs s1.collC with
-        | (some e, c) => (.error e, { s1 with collC := c })
+        | (some e, _) => (.error e, s1)
         | (none, c) => (.ok c.val, { s1 with collC := c })
   else (.ok s.collC.val, s)
 
@@ -126,7 +127,7 @@ def fillBorLoop : List String → M Unit
 def suppliesView : M (AList String SupplyV) := fun s =>
   if s.supC.empty then
     match fillSupLoop cx env (keys s.supplies) s with
-    | (.error e, s1) => (.error e, s1)
+    | (.error e, s1) => (.error e, { s1 with supC := s.supC })   -- the objects built so far are dropped
     | (.ok (), s1) => (.ok s1.supC.val, s1)
   else (.ok s.supC.val, s)
 
@@ -134,7 +135,7 @@ def suppliesView : M (AList String SupplyV) := fun s =>
 def borrowsView : M (AList String BorrowV) := fun s =>
   if s.borC.empty then
     match fillBorLoop cx env (keys s.borrows) s with
-    | (.error e, s1) => (.error e, s1)
+    | (.error e, s1) => (.error e, { s1 with borC := s.borC })
     | (.ok (), s1) => (.ok s1.borC.val, s1)
   else (.ok s.borC.val, s)
 
